@@ -1096,13 +1096,16 @@ func (c *Ctx) checkSplit(r *Report, ro *Roles) {
 		return
 	}
 	// functions that allocate AppenderRef composites with explicit Level ranges
+	type lit struct {
+		al       *ssa.Alloc
+		at       ssa.Instruction // where the reference comes into being in the function it is attributed to
+		mn, mx   ssa.Value
+		guards   []Guard
+		mnS, mxS string
+	}
+	byFn := map[*ssa.Function][]*lit{}
+	var order []*ssa.Function
 	for _, f := range c.Funcs {
-		type lit struct {
-			al       *ssa.Alloc
-			mn, mx   ssa.Value
-			guards   []Guard
-			mnS, mxS string
-		}
 		var lits []*lit
 		eachInstr(f, func(in ssa.Instruction) {
 			al, ok := in.(*ssa.Alloc)
@@ -1112,7 +1115,7 @@ func (c *Ctx) checkSplit(r *Report, ro *Roles) {
 			if p, ok := al.Type().(*types.Pointer); !ok || p.Elem() != types.Type(ro.AppenderRef) {
 				return
 			}
-			l := &lit{al: al, guards: guardsOfInstr(in)}
+			l := &lit{al: al, at: in, guards: guardsOfInstr(in)}
 			// stores to al.Level.MinLevel / MaxLevel
 			if refs := al.Referrers(); refs != nil {
 				for _, rr := range *refs {
@@ -1162,6 +1165,52 @@ func (c *Ctx) checkSplit(r *Report, ro *Roles) {
 		if len(lits) == 0 {
 			continue
 		}
+		byFn[f] = lits
+		order = append(order, f)
+	}
+	// a constructor helper (bounds passed in as parameters, only called directly): its literal counts once per call
+	// site, in the caller, with the caller's arguments and the call's guards
+	for _, f := range append([]*ssa.Function{}, order...) {
+		lits := byFn[f]
+		isParam := func(v ssa.Value) int {
+			for i, p := range f.Params {
+				if ssa.Value(p) == v {
+					return i
+				}
+			}
+			return -1
+		}
+		if len(lits) != 1 || (isParam(lits[0].mn) < 0 && isParam(lits[0].mx) < 0) {
+			continue
+		}
+		sites := c.callSitesOf(f)
+		if len(sites) == 0 || c.usedAsValue(f) || (f.Object() != nil && f.Object().Exported()) {
+			continue
+		}
+		r.SawFunc(f)
+		for _, cs := range sites {
+			g := cs.Parent()
+			nl := &lit{al: lits[0].al, at: cs, mn: lits[0].mn, mx: lits[0].mx, guards: guardsOfInstr(cs)}
+			if i := isParam(nl.mn); i >= 0 {
+				nl.mn = cs.Common().Args[i]
+			}
+			if i := isParam(nl.mx); i >= 0 {
+				nl.mx = cs.Common().Args[i]
+			}
+			if _, had := byFn[g]; !had {
+				order = append(order, g)
+			}
+			byFn[g] = append(byFn[g], nl)
+		}
+		delete(byFn, f)
+	}
+	for _, f := range order {
+		lits := byFn[f]
+		if len(lits) == 0 {
+			continue
+		}
+		// in source order
+		sort.SliceStable(lits, func(i, j int) bool { return lits[i].at.Pos() < lits[j].at.Pos() })
 		r.SawFunc(f)
 		key := "C01.split:" + fname(f)
 		fr := &Frame{Fn: f}
@@ -1277,6 +1326,35 @@ func checkC10(c *Ctx, r *Report) {
 		}
 		return ""
 	}
+	// the recorder's scope: the recorder plus unexported helpers that only the recorder (or such a helper) calls —
+	// code extracted out of the recorder is still the recorder
+	recScope := map[*ssa.Function]bool{R: true}
+	for changed := true; changed; {
+		changed = false
+		for _, f := range c.Funcs {
+			if recScope[f] || f.Pkg != c.LogS || f.Parent() != nil || f.Signature.Recv() != nil || f.Object() == nil || f.Object().Exported() {
+				continue
+			}
+			sites := c.callSitesOf(f)
+			if len(sites) == 0 {
+				continue
+			}
+			all := true
+			for _, cs := range sites {
+				if _, isCall := cs.(*ssa.Call); !isCall || !recScope[cs.Parent()] {
+					all = false
+				}
+			}
+			if owners := c.ownerRoots(f, map[*ssa.Function]bool{}); len(owners) == 1 && owners[0] == f.Name() {
+				all = false // used as a value somewhere
+			}
+			if all {
+				recScope[f] = true
+				changed = true
+				r.SawFunc(f)
+			}
+		}
+	}
 	nEffects := 0
 	for _, E := range ro.EntryPoints {
 		r.SawFunc(E)
@@ -1288,7 +1366,7 @@ func checkC10(c *Ctx, r *Report) {
 		var effs []eff
 		var exits []string
 		ts := &TS{C: c, Ev: &Evaluator{}}
-		ts.Inline = func(s *TSCtx, call ssa.CallInstruction, callee *ssa.Function) bool { return callee == R }
+		ts.Inline = func(s *TSCtx, call ssa.CallInstruction, callee *ssa.Function) bool { return recScope[callee] }
 		ts.OnBranch = func(s *TSCtx, iff *ssa.If, taken bool) (string, bool) {
 			cond, pol := iff.Cond, taken
 			for {
@@ -1498,7 +1576,7 @@ func checkC10(c *Ctx, r *Report) {
 				if g, ok := ld.X.(*ssa.Global); ok && hooks[g] != "" {
 					nReads++
 					hooksRead[hooks[g]] = true
-					if f != R {
+					if !recScope[f] {
 						badReads++
 						r.Fail("C10.hook-sites:"+fname(f)+"→"+hooks[g], c.instrPos(in), "hook %s is read outside the recorder: every such site is a further invocation per event or per write, outside the level gate and not with the caller's context", hooks[g])
 					}
@@ -1571,21 +1649,53 @@ func (c *Ctx) checkEventPopulation(r *Report, R *ssa.Function) {
 		n, ok := sl.Elem().(*types.Named)
 		return ok && n.Obj().Name() == "Field"
 	})
-	want := map[string]func(p string) bool{
-		"Time": func(p string) bool {
-			return strings.HasPrefix(p, "phi:phi(") && strings.Contains(p, "time.Now()") && strings.Contains(p, "dynamic(global:TimeNow, "+ctxP+")")
-		},
-		"CtxString": func(p string) bool {
-			return strings.HasPrefix(p, "phi:phi(") && strings.Contains(p, "dynamic(global:StringFromContext, "+ctxP+")")
-		},
-		"CtxFields": func(p string) bool {
-			return strings.HasPrefix(p, "phi:phi(") && strings.Contains(p, "dynamic(global:FieldsFromContext, "+ctxP+")")
-		},
-		"Level":  func(p string) bool { return p == lvlP },
-		"Tag":    func(p string) bool { return p == tagP },
-		"Fields": func(p string) bool { return p == fldP },
+	// the value stored into a field, as the set of alternatives it can come from (φs and inlined helper returns
+	// flattened): "hook result | default"
+	var leaves func(n *PNode, d int) []string
+	leaves = func(n *PNode, d int) []string {
+		n = n.eff()
+		if n.Kind == "phi" && d < 6 {
+			var out []string
+			for _, a := range n.Args {
+				out = append(out, leaves(a, d+1)...)
+			}
+			return out
+		}
+		return []string{n.String()}
 	}
-	got := map[string]string{}
+	hookOr := func(hook string, defaults ...string) func(ls []string) bool {
+		return func(ls []string) bool {
+			sawHook := false
+			for _, l := range ls {
+				if l == "dynamic(global:"+hook+", "+ctxP+")" {
+					sawHook = true
+					continue
+				}
+				okD := false
+				for _, dflt := range defaults {
+					if l == dflt {
+						okD = true
+					}
+				}
+				if !okD {
+					return false
+				}
+			}
+			return sawHook && len(ls) >= 2
+		}
+	}
+	exactly := func(p string) func(ls []string) bool {
+		return func(ls []string) bool { return len(ls) == 1 && ls[0] == p }
+	}
+	want := map[string]func(ls []string) bool{
+		"Time":      hookOr("TimeNow", "time.Now()"),
+		"CtxString": hookOr("StringFromContext", `""`, `const:""`),
+		"CtxFields": hookOr("FieldsFromContext", "nil", "const:nil"),
+		"Level":     exactly(lvlP),
+		"Tag":       exactly(tagP),
+		"Fields":    exactly(fldP),
+	}
+	got := map[string][]string{}
 	eachInstr(R, func(in ssa.Instruction) {
 		st, ok := in.(*ssa.Store)
 		if !ok {
@@ -1595,7 +1705,7 @@ func (c *Ctx) checkEventPopulation(r *Report, R *ssa.Function) {
 		if !ok || !isEventPtr(fa.X.Type()) {
 			return
 		}
-		got[fieldName(fa)] = c.prov(st.Val, fr).String()
+		got[fieldName(fa)] = leaves(c.prov(st.Val, fr), 0)
 	})
 	var names []string
 	for k := range want {
@@ -1610,9 +1720,9 @@ func (c *Ctx) checkEventPopulation(r *Report, R *ssa.Function) {
 			continue
 		}
 		if want[f](p) {
-			r.OK(key, "Event.%s ← %s", f, p)
+			r.OK(key, "Event.%s ← %s", f, strings.Join(p, " | "))
 		} else {
-			r.Fail(key, c.pos(R.Pos()), "Event.%s is populated from %s", f, p)
+			r.Fail(key, c.pos(R.Pos()), "Event.%s is populated from %s", f, strings.Join(p, " | "))
 		}
 	}
 	// the populated event is the one handed to Append
